@@ -27,6 +27,73 @@ def family_unit(spec):
     return Unit("C10.family[%s]" % spec.name, h, bounds={"states": len(spec.states), "events": len(spec.events)}, program=spec.describe(), max_paths=10)
 
 
+def gridded_conserve_unit(path_kind, m_steps=2, n_grid=2):
+    """gridded tau-leap output of a closed model: the real solve_stochast(exact=False) post-processing on a recorded path
+    every row of which has the same total; every row reported on the requested grid must have that total too (linear
+    interpolation preserves sums).  path_kind: 'sym' (arbitrary conserving path) | 'int64' / 'float64' (a concrete TYPED
+    path array, as _jump returns it from integer / float initial values; times and grid stay symbolic)"""
+    from pygom.model import simulate as simmod
+    from .. import stubs
+    from .c11 import interp_model
+    from .c04 import shape_specs
+    from .stoch import arr
+    S = 3
+    spec = [s_ for s_ in shape_specs() if s_.name == "shape_3x2"][0] if any(s_.name == "shape_3x2" for s_ in shape_specs()) else [s_ for s_ in shape_specs() if len(s_.states) == 3][0]
+
+    def h(c):
+        model = built(spec)
+        t0 = c.real("t0")
+        ts = [t0]
+        for i in range(m_steps):
+            ti = c.real("e%d" % i, lo=None)
+            c.assume(ti > ts[-1])
+            if c.mode != "sym":
+                c.assume(ti - ts[-1] > 1e-3)
+            ts.append(ti)
+        if path_kind == "sym":
+            X = [[(c.intreal("p%d_%d" % (i, s_), lo=0, hi=20) if i == 0 else c.real("p%d_%d" % (i, s_))) for s_ in range(S)] for i in range(m_steps + 1)]
+            total = zsum(X[0])
+            for row in X[1:]:
+                c.assume(close(zsum(row), total, c))
+            Xa = np.array(X, dtype=object if c.mode == "sym" else float)
+        else:
+            X = [[9, 1, 0], [7, 2, 1], [4, 3, 3], [2, 2, 6]][:m_steps + 1]
+            total = 10
+            Xa = np.array(X, dtype=np.int64 if path_kind == "int64" else np.float64)
+        g = [t0]
+        for k in range(1, n_grid + 1):
+            gk = c.real("g%d" % k)
+            c.assume(gk > g[-1])
+            if c.mode != "sym":
+                c.assume(gk - g[-1] > 1e-3)
+            g.append(gk)
+        Ja = np.array([[1, 0]] * m_steps)
+        Ta = arr(c, ts) if c.mode == "sym" else np.array(ts, dtype=float)
+
+        def fake_jump(finalT, exact=False, full_output=True, seed=None):
+            dT = arr(c, [Ta[i + 1] - Ta[i] for i in range(m_steps)]) if c.mode == "sym" else np.diff(Ta)
+            return Xa.copy(), Ja.copy(), Ta.copy(), dT
+        patches = [(model, "_jump", fake_jump)]
+        if c.mode == "sym":
+            npx = stubs.NumpyObjProxy()
+            npx.interp = interp_model(c)
+            patches.append((simmod, "np", npx))
+        x0 = Xa[0].copy()
+        model.initial_values = (x0, t0 if c.mode == "sym" else np.float64(t0))
+        if c.mode == "sym":
+            model._x0 = x0
+        with stubs.patched(*patches):
+            simX, simJ, tout = model.solve_stochast(np.array(g, dtype=object if c.mode == "sym" else float), 1, exact=False, full_output=True)
+        rows = simX[0]
+        c.reachable("gridded tau-leap output produced")
+        c.prove(len(rows) == n_grid + 1, "one row per requested time")
+        for k in range(n_grid + 1):
+            c.prove(close(zsum(list(rows[k])), total, c), "gridded tau-leap row %d has the total of the recorded path" % k)
+    return Unit("C10.gridded_tau[path=%s,steps=%d,grid=%d]" % (path_kind, m_steps, n_grid), h,
+                bounds={"states": S, "recorded_steps": m_steps, "grid_points": n_grid + 1, "path": path_kind, "np.interp": "piecewise-linear model with clamping"},
+                max_paths=4000, tol=1e-9)
+
+
 def t_only(spec):
     return not spec.odes and all(tr.kind == "T" for e in spec.events for tr in e.transitions) and spec.events
 
@@ -39,7 +106,9 @@ class C10(Check):
                    "explicit terms, for all values; plus the transition-only members of the fixed/generated families.  (b) one symbolic "
                    "first-reaction / tau-leap step with an arbitrary zero-column-sum integer V and the real _jump loop on a transition-only "
                    "model: the total is unchanged exactly, for every draw, count and tau.  (c) deterministic trajectories: linear invariants "
-                   "of f are preserved by scipy's integrators up to round-off (standard result, trusted) -- reduces to (a) + C02.")
+                   "of f are preserved by scipy's integrators up to round-off (standard result, trusted) -- reduces to (a) + C02.  (d) gridded tau-leap "
+                   "output: the real interpolation of a recorded path with constant total (symbolic, and typed int64/float64 path arrays) onto a "
+                   "symbolic grid keeps that total in every reported row.")
     stubs = ["numpy global RNG streams", "_cy_test_tau_leap_safety contract", "transitionMean/Var havoc"]
     assumptions = ["numerical drift of the Fortran integrators is not decided", "floats as reals"]
 
@@ -61,6 +130,9 @@ class C10(Check):
         us.append(tau_leap_unit(2, 1, False, conserve=True, asserts=("walk", "conserve"), tag="C10"))
         us.append(jump_unit(expr.by_name("sir"), True, 2, asserts=("walk", "conserve"), tag="C10"))
         us.append(jump_unit(expr.by_name("xy_2s1e"), False, 2, asserts=("walk", "conserve"), tag="C10"))
+        us.append(gridded_conserve_unit("sym"))
+        us.append(gridded_conserve_unit("int64"))
+        us.append(gridded_conserve_unit("float64"))
         if tier != "quick":
             us.append(first_reaction_unit(3, 3, conserve=True, asserts=("walk", "conserve"), tag="C10"))
             us.append(tau_leap_unit(3, 2, False, conserve=True, asserts=("walk", "conserve"), tag="C10"))
